@@ -534,7 +534,7 @@ theorem C06_exprlength_fixed_witness :
 example : (PExpr.funcall 3 4 (.cons 0 (.leaf 0 9) (.cons 2 (.leaf 1 0) .nil))).wf exprFixedMax exprSepMax := by
   simp [PExpr.wf, PArgs.wf]; decide
 
-/-! ## exp2cxx case-conversion buffers (not repaired: proposed `finding:`) -/
+/-! ## exp2cxx / exp2python case-conversion buffers and the identifier gate -/
 
 theorem loopOut_small (c : LoopCfg) (len : Nat) (h : len < c.cap) : loopOut c len = .ok (match c.limit with | some l => min len l | none => len) := by
   unfold loopOut
@@ -544,20 +544,115 @@ theorem loopOut_small (c : LoopCfg) (len : Nat) (h : len < c.cap) : loopOut c le
     have : min len l < c.cap := Nat.lt_of_le_of_lt (Nat.min_le_left _ _) h
     simp [this]
 
-/-- **C06, `StrToLower`/`StrToUpper`/`StrToConstant` — partial**: names shorter than the buffer are copied without
-overflow.  Excluded: names of `MAX_LEN + 1` characters or more (unless the loop is bounded) — see the witness. -/
-theorem C06_no_overflow_case_fns_partial (fn : String) (c : LoopCfg) (_hm : (fn, c) ∈ caseFns) (len : Nat)
-    (h : len < c.cap) : (loopOut c len).isOverflow = false := by
-  rw [loopOut_small c len h]; rfl
-
-/-- a bounded loop (`i < L`, `L < cap`) would be safe for every name -/
+/-- a bounded loop (`i < L`, `L < cap`) is safe for every name -/
 theorem loopOut_bounded (cap l len : Nat) (h : l < cap) : (loopOut { cap := cap, limit := some l } len).isOverflow = false := by
   unfold loopOut
   have : min len l < cap := Nat.lt_of_le_of_lt (Nat.min_le_right _ _) h
   simp [this, Outcome.isOverflow]
 
-/-- the unbounded loop into `newword[241]`: a 241-character identifier overflows -/
+def loopCfgSafe (c : LoopCfg) : Bool :=
+  match c.limit with | some l => decide (l < c.cap) | none => false
+
+theorem loopOut_safe (c : LoopCfg) (h : loopCfgSafe c = true) (len : Nat) : (loopOut c len).isOverflow = false := by
+  obtain ⟨cap, limit⟩ := c
+  cases limit with
+  | none => simp [loopCfgSafe] at h
+  | some l => simp [loopCfgSafe] at h; exact loopOut_bounded cap l len h
+
+/-- **C06, `StrToLower`/`StrToUpper`/`StrToConstant` of exp2cxx and exp2python**: for a name of any length the loop
+stores only inside `newword[MAX_LEN+1]` (loop bound and terminator index below the capacity). -/
+theorem C06_no_overflow_case_fns (fn : String) (c : LoopCfg) (hm : (fn, c) ∈ caseFns) (len : Nat) :
+    (loopOut c len).isOverflow = false := by
+  have hall : caseFns.all (fun p => loopCfgSafe p.2) = true := by decide
+  have := List.all_eq_true.mp hall (fn, c) hm
+  exact loopOut_safe c this len
+
+/-- **C06, identifier gate**: in both generators an identifier longer than the gate's limit is refused before any
+name buffer is touched, and every string of up to limit + 40 characters (an accepted identifier plus the prefixes and
+suffixes the generators add) is case-converted completely — the bounded loops never truncate an accepted name. -/
+theorem C06_ident_gate (tool : String) (g maxlen : Nat) (hg : (tool, some g, maxlen) ∈ identGates)
+    (fn : String) (c : LoopCfg) (hm : (fn, c) ∈ caseFns) (len : Nat) :
+    (g < len → gatedLoopOut (some g) c len = .reject) ∧ (len ≤ g + 40 → loopOut c len = .ok len) := by
+  have hall : identGates.all (fun t => match t.2.1 with | some g => caseFns.all (fun p =>
+      match p.2.limit with | some l => decide (g + 40 ≤ l) && decide (l < p.2.cap) | none => false) | none => false) = true := by decide
+  have h1 := List.all_eq_true.mp hall (tool, some g, maxlen) hg
+  simp only at h1
+  have h2 := List.all_eq_true.mp h1 (fn, c) hm
+  constructor
+  · intro h; simp [gatedLoopOut, h]
+  · intro h
+    obtain ⟨cap, limit⟩ := c
+    cases limit with
+    | none => simp at h2
+    | some l =>
+      simp at h2
+      unfold loopOut
+      have hmin : min len l = len := Nat.min_eq_left (by omega)
+      have : len < cap := by omega
+      simp [hmin, this]
+
+/-- both generators have the gate -/
+theorem C06_ident_gate_present : identGates.all (fun t => t.2.1.isSome) = true ∧ identGates.length = 2 := by decide
+
+/-- the unbounded loop into `newword[241]` (tree before `fix: C06-10/11`): a 241-character identifier overflows -/
 theorem C06_case_fns_unbounded_witness : loopOut { cap := 241, limit := none } 241 = .overflow 241 := by decide
+
+/-! ## exp2cxx `TypeDescription` -/
+
+theorem descAppend_bounded (c : DescCfg) (hb : c.bounded = true) (used len : Nat) (hu : used + 1 ≤ c.cap) :
+    ∃ u, descAppend c used len = .ok u ∧ u + 1 ≤ c.cap := by
+  unfold descAppend
+  simp only [hb, if_true]
+  by_cases h : used + 1 < c.cap
+  · refine ⟨used + min len (c.cap - 1 - used), by simp [h], ?_⟩
+    have : min len (c.cap - 1 - used) ≤ c.cap - 1 - used := Nat.min_le_right _ _
+    omega
+  · exact ⟨used, by simp [h], hu⟩
+
+/-- **C06, exp2cxx `TypeDescription`**: whatever pieces (type names, enumeration items, select members, bounds, any
+number and length) are appended to the description, nothing is stored outside `buf[TYPE_DESCRIPTION_SIZE]`. -/
+theorem C06_no_overflow_type_description (pieces : List Nat) :
+    ∃ u, descRun descCfg 0 pieces = .ok u ∧ u + 1 ≤ descCfg.cap := by
+  have hb : descCfg.bounded = true := by decide
+  have key : ∀ (ps : List Nat) (used : Nat), used + 1 ≤ descCfg.cap → ∃ u, descRun descCfg used ps = .ok u ∧ u + 1 ≤ descCfg.cap := by
+    intro ps
+    induction ps with
+    | nil => intro used hu; exact ⟨used, rfl, hu⟩
+    | cons l rest ih =>
+      intro used hu
+      obtain ⟨u1, h1, hu1⟩ := descAppend_bounded descCfg hb used l hu
+      obtain ⟨u2, h2, hu2⟩ := ih u1 hu1
+      exact ⟨u2, by simp [descRun, h1, h2], hu2⟩
+  exact key pieces 0 (by decide)
+
+/-- the tree before `fix: C06-14`: plain `strcat` into `buf[6000]` — pieces totalling 6000 characters overflow
+(e.g. 610 enumeration items of 8 characters with their ", " separators) -/
+theorem C06_type_description_unbounded_witness :
+    descRun { cap := 6000, bounded := false } 0 [17, 5973, 10] = .overflow 6000 := by decide
+
+/-! ## exppp output file name -/
+
+def fileNameCfgSafe (c : FileNameCfg) : Bool :=
+  match c.guard with | some g => decide (c.ext + c.app + 1 ≤ g) | none => false
+
+/-- **C06, exppp `SCHEMAout`**: for a schema name of any length the generated file name (with ".exp" and a possible
+".pp") is stored inside `exppp_filename_buffer[]`, or the name is refused with a diagnostic. -/
+theorem C06_no_overflow_exppp_filename (len : Nat) : (fileNameOut fileNameCfg len).isOverflow = false := by
+  have h : fileNameCfgSafe fileNameCfg = true := by decide
+  unfold fileNameCfgSafe at h
+  cases hg : fileNameCfg.guard with
+  | none => simp [hg] at h
+  | some g =>
+    simp [hg] at h
+    unfold fileNameOut
+    simp only [hg]
+    by_cases h1 : fileNameCfg.cap < len + g
+    · simp [h1, Outcome.isOverflow]
+    · have : len + fileNameCfg.ext + fileNameCfg.app + 1 ≤ fileNameCfg.cap := by omega
+      simp [h1, this, Outcome.isOverflow]
+
+theorem C06_exppp_filename_unguarded_witness :
+    fileNameOut { cap := 1000, ext := 4, app := 3, guard := none } 996 = .overflow 1000 := by decide
 
 /-! ## exit status -/
 
